@@ -1,6 +1,7 @@
+import sys
 import types
 import typing
-from typing import Annotated, Any, ForwardRef, Generic, NewType, Protocol, TypedDict, TypeVar, Union
+from typing import Annotated, Any, ForwardRef, Generic, NewType, Optional, Protocol, TypedDict, TypeVar, Union
 
 from ..common import TypeHint, VarTuple
 from ..feature_requirement import HAS_PY_312, HAS_PY_313
@@ -129,3 +130,12 @@ if HAS_PY_313:
 else:
     def eval_forward_ref(namespace: dict[str, Any], forward_ref: ForwardRef):
         return forward_ref._evaluate(namespace, None, recursive_guard=frozenset())
+
+
+def get_forward_ref_namespace(forward_ref: ForwardRef) -> Optional[dict[str, Any]]:
+    module = forward_ref.__forward_module__
+    if module is None:
+        return None
+    if isinstance(module, str):  # typing passes name of module, FwdRef passes module itself
+        module = sys.modules[module]
+    return vars(module)
